@@ -2,6 +2,8 @@ import TSSVerif.Driver.Wire
 import TSSVerif.Driver.Rbc
 import TSSVerif.Driver.Classify
 import TSSVerif.Driver.Sss
+import TSSVerif.Driver.Box
+import TSSVerif.Driver.BoxConc
 /-!
 Line-protocol driver: one operation per input line, one answer per output line. Imports `Model/`
 and `Driver/` only (core Lean), so it links as a native executable; the definitions it runs are the
@@ -11,11 +13,21 @@ open TSSVerif.Driver
 
 structure DState where
   rbc : Nat → Option RbcD := fun _ => none
+  box : Option BoxD := none
+  boxc : Option BoxCD := none
 
 def step (st : DState) (line : String) : DState × String :=
   let toks := (line.splitOn " ").filter (· ≠ "")
   match toks with
   | "wire" :: rest => (st, (wireOp rest).getD "bad-op")
+  | "boxc" :: rest =>
+    match boxcOp st.boxc rest with
+    | some (d, o) => ({ st with boxc := d }, o)
+    | none => (st, "bad-op")
+  | "box" :: rest =>
+    match boxOp st.box rest with
+    | some (d, o) => ({ st with box := d }, o)
+    | none => (st, "bad-op")
   | "sss" :: rest => (st, (sssOp rest).getD "bad-op")
   | "cls" :: rest => (st, (clsOp rest).getD "bad-op")
   | "rbc" :: inst :: rest =>
